@@ -482,4 +482,19 @@ def generate(repo):
                        ('davies_activity_product', 'sigDaviesProduct')):
         parts.append(_signature(tree0, name, lean))
     parts.append(_signature(utree, 'allclose', 'sigAllclose'))
+    # the hand-modelled bodies (loops of the activity products, the callable classes): normalised source text, pinned by `_guard`s
+    def body_text(node):
+        body = [n for n in node.body if not (isinstance(n, ast.Expr) and isinstance(n.value, ast.Constant))]
+        return ' ; '.join(' '.join(ast.unparse(n).split()) for n in body)
+    for name, lean in (('limiting_activity_product', 'srcLimitingProduct'), ('extended_activity_product', 'srcExtendedProduct'),
+                       ('davies_activity_product', 'srcDaviesProduct')):
+        parts.append('/-- body of `%s` (normalised source text) -/\ndef %s : String := %s\n'
+                     % (name, lean, lean_str(body_text(find_def(tree0, name)))))
+    for cls, lean in (('_ActivityProductBase', 'srcBaseClass'), ('LimitingDebyeHuckelActivityProduct', 'srcLimitingClass'),
+                      ('ExtendedDebyeHuckelActivityProduct', 'srcExtendedClass')):
+        c = find_def(tree0, cls)
+        meths = [n for n in c.body if isinstance(n, ast.FunctionDef)]
+        txt = ' || '.join('%s(%s): %s' % (m.name, ', '.join(a.arg for a in m.args.args) + (', *' + m.args.vararg.arg if m.args.vararg else ''),
+                                          body_text(m)) for m in meths)
+        parts.append('/-- methods of class `%s` (normalised source text) -/\ndef %s : String := %s\n' % (cls, lean, lean_str(txt)))
     return {'FnElectrolytes.lean': P.wrap_module([PRELUDE] + parts, REL, namespace=NS)}
